@@ -676,3 +676,26 @@ def nested_pomdp_variant(spec, k):
     others = [g for g in (0.5, 0.8, 0.9, 0.95) if g != sp['gamma']]
     sp['gamma'] = others[k % len(others)]
     return sp
+
+
+SWEEP_ATTRS = ('state_list', 'action_list', 'observation_list', 'transition_matrix', 'action_matrix', 'reward_matrix',
+               'state_action_reward_matrix', 'observation_matrix', 'initial_state_vec', 'absorbing_state_vec')
+
+
+def interrupted_first_sweep(model, ctx, k):
+    """Fault F6 at model construction: the library's first sweeps over a FRESH tabular model object (its state list by
+    reachability, its matrices) die at the k-th model call-back - the user's model function raises once - and the same
+    object is used afterwards.  Returns True when the abort was delivered."""
+    from .core import InjectedAbort
+    hook = ctx.abort_after(k)
+    delivered = False
+    for a in SWEEP_ATTRS:
+        if not hasattr(type(model), a):
+            continue
+        try:
+            getattr(model, a)
+        except InjectedAbort:
+            delivered = True
+            break
+    ctx.disarm(hook)
+    return delivered
